@@ -14,7 +14,11 @@ FINALLY_MARKS = []
 
 
 def truth(kind, **f):
-    cur_sim().tlog(kind, **f)
+    s = cur_sim()
+    s.tlog(kind, **f)
+    if kind == 'p-leave':
+        t = s.me()
+        s.ev('p-leave', t.name if t else None, f.get('x'), f.get('how'))    # ordered with the kernel events of the run
 
 
 # ------------------------------------------------------------------------------------------ values
